@@ -18,12 +18,38 @@ use erltf::{Atom, OwnedTerm};
 use std::collections::BTreeMap;
 
 /// The integer held by `term`, provided it is within the range of `T`.
-pub(crate) fn integer<T: TryFrom<i64>>(term: &OwnedTerm) -> Option<T> {
-    T::try_from(term.as_integer()?).ok()
+///
+/// Integers outside the 32-bit encodings are decoded as big integers, so both
+/// representations are read.
+pub(crate) fn integer<T: TryFrom<i128>>(term: &OwnedTerm) -> Option<T> {
+    let value = match term {
+        OwnedTerm::Integer(i) => i128::from(*i),
+        OwnedTerm::BigInt(big) => {
+            let significant = big
+                .digits
+                .iter()
+                .rposition(|&d| d != 0)
+                .map_or(0, |pos| pos + 1);
+            if significant > 8 {
+                return None;
+            }
+            let magnitude = big.digits[..significant]
+                .iter()
+                .rev()
+                .fold(0u64, |acc, &digit| (acc << 8) | u64::from(digit));
+            if big.sign.is_negative() {
+                -i128::from(magnitude)
+            } else {
+                i128::from(magnitude)
+            }
+        }
+        _ => return None,
+    };
+    T::try_from(value).ok()
 }
 
 /// The integer stored under the atom `key`, provided it is within the range of `T`.
-pub(crate) fn integer_field<T: TryFrom<i64>>(
+pub(crate) fn integer_field<T: TryFrom<i128>>(
     map: &BTreeMap<OwnedTerm, OwnedTerm>,
     key: &str,
 ) -> Option<T> {
